@@ -5,7 +5,7 @@ import json
 import random
 import sys
 
-from pydsol.core.streams import (MersenneTwister, SimpleStreamUpdater, StreamSeedUpdater, StreamUpdater)
+from pydsol.core.streams import (MersenneTwister, SimpleStreamUpdater, StreamSeedInformation, StreamSeedUpdater, StreamUpdater)
 
 BAD_KEYS = [5, ("a", 1), None, 2.5, b"default"]
 BAD_STREAMS = [None, "stream", 7, random.Random(3)]
@@ -30,14 +30,23 @@ def make_fallback(fb):
     raise ValueError(fb)
 
 
-def make_updater(u):
+def make_updater(u, case=None, by_name=None):
+    """-> (updater, info).  The seed table of the top-level updater is configured the documented way: a
+    StreamSeedInformation holds the named streams, add_seed_values() their seed lists, and the updater is built
+    from get_seeds(); later add_seed_values() calls (case["reconf"]) reconfigure that same table."""
     if u["kind"] == "simple":
-        return SimpleStreamUpdater()
-    upd = StreamSeedUpdater({k: list(v) for k, v in u["table"]})
+        return SimpleStreamUpdater(), None
+    info = StreamSeedInformation()
+    names = [k for k, _ in u["table"]] + [n for _ci, n, _v in (case or {}).get("reconf", [])]
+    for n in names:
+        info.add_stream(n, (by_name or {}).get(n) or MersenneTwister(0))   # add_seed_values wants the stream to be known
+    for k, v in u["table"]:
+        info.add_seed_values(k, list(v))
+    upd = StreamSeedUpdater(info.get_seeds())
     fb = make_fallback(u["fb"])
     if fb is not None:
         upd.set_fallback_stream_updater(fb)
-    return upd
+    return upd, info
 
 
 def make_stream(s):
@@ -65,13 +74,16 @@ def seeds_of(objs):
 
 
 def run_case(case):
-    upd = make_updater(case["updater"])
     d, objs = {}, []
     for s in case["streams"]:
         key = s["name"] if s["kind"] != "badkey" else BAD_KEYS[s["bad"]]
         val = BAD_STREAMS[s["bad"]] if s["kind"] == "badstream" else make_stream(s)
         d[key] = val
         objs.append((key, val))
+    upd, info = make_updater(case["updater"], case, {k: v for k, v in objs if isinstance(k, str) and isinstance(v, MersenneTwister)})
+    reconf = {}
+    for ci, n, v in case.get("reconf", []):
+        reconf.setdefault(ci, []).append((n, v))
     obs = []
     pre = case.get("pre") or [0] * len(case["calls"])
     npost = case.get("post", 0)
@@ -83,6 +95,11 @@ def run_case(case):
                     v.next_float()
         exc = None
         try:
+            for n, v in reconf.get(ci, []):          # the seed table is reconfigured between two replications
+                try:
+                    info.add_seed_values(n, list(v))
+                except Exception as e:  # noqa
+                    raise RuntimeError("reconf") from e
             if "all" in c:
                 ret = upd.update_seeds(d, rvalue(c["all"]))
             else:
@@ -91,7 +108,7 @@ def run_case(case):
             if ret is not None:
                 exc = "returned:" + repr(ret)
         except Exception as e:  # noqa
-            exc = type(e).__name__
+            exc = type(e).__name__ if str(e) != "reconf" else "add_seed_values:" + type(e.__cause__).__name__
         # ... and the first draws of every stream after it
         after = []
         for _k, v in objs:
